@@ -7,12 +7,14 @@ from pygradflow.params import (LinearSolverType, NewtonType, PenaltyUpdate, Scal
 
 
 def family_spec(i, rng, fmts=("coo", "csr", "csc")):
-    fam = i % 6
+    # the family is drawn, not derived from the group index: callers choose their parameter modes by `i % k`, and a
+    # periodic family would pair each mode with the same few families for every seed
+    fam = int(rng.integers(0, 6))
     if fam == 0:
-        return ("repo", ["hs71", "hs71c", "tame", "rosenbrock"][(i // 6) % 4])
+        return ("repo", ["hs71", "hs71c", "tame", "rosenbrock"][int(rng.integers(0, 4))])
     if fam in (1, 5):
         return ("convex_qp", int(rng.integers(0, 2 ** 31)), int(rng.integers(2, 6)), int(rng.integers(0, 4)),
-                {"fmt": fmts[i % len(fmts)], "quad_rows": bool(fam == 5)})
+                {"fmt": fmts[int(rng.integers(0, len(fmts)))], "quad_rows": bool(fam == 5)})
     if fam == 2:
         return ("boxdomain", int(rng.integers(0, 2 ** 31)), int(rng.integers(2, 5)), int(rng.integers(0, 3)), {})
     if fam == 3:
